@@ -243,6 +243,10 @@ func init() {
 				r.Outcome("rejected")
 				return
 			}
+			if v.Class == "ambiguous" {
+				r.Outcome("skipped: nested LIMIT admits several answers")
+				return
+			}
 			if v.Class == "harness-unresolved" {
 				panic("reference cannot evaluate: " + q.SQL() + ": " + v.Why)
 			}
